@@ -19,21 +19,36 @@ def summary (t : Thread) : String :=
   | _ => "stuck"
 
 /-- the statement's clauses on what was observed: results per thread and the final store -/
-def verdict (results : List String) (regIds : List (Nat × Bytes)) (post : List PkSnap) : String :=
+def verdict (results : List String) (regIds : List (Nat × Bytes)) (post : List PkSnap) (sched : Option (List Nat)) : String :=
   if results.any (fun r => r == "stuck" || r.startsWith "extra-rounds") then "fail:a-ceremony-did-not-finish-under-this-schedule" else
   -- every successful registration's credential is present afterwards
   let lost := regIds.any (fun (i, id) => (results.getD i "").startsWith "ok:" && !post.any (fun p => p.credId == id))
   if lost then "fail:a-registered-credential-is-missing-from-the-shared-store" else
   -- successful assertions with the same credential: pairwise distinct counters, the largest of which is stored
-  let asserts : List (String × Nat) := results.filterMap (fun r => match r.splitOn ":" with
-    | ["ok", c, n] => n.toNat?.map (fun k => (c, k))
+  let asserts : List (Nat × String × Nat) := (results.zipIdx).filterMap (fun (r, i) => match r.splitOn ":" with
+    | ["ok", c, n] => n.toNat?.map (fun k => (i, c, k))
     | _ => none)
-  let creds := (asserts.map (·.1)).eraseDups
+  -- two ceremonies do not overlap under a call-by-call schedule when every step of one precedes every step of the other
+  let serial (i j : Nat) : Bool := match sched with
+    | none => false
+    | some sc =>
+      let pos (t : Nat) : List Nat := (sc.zipIdx).filterMap (fun (x, k) => if x == t then some k else none)
+      match (pos i).getLast?, (pos j).head?, (pos j).getLast?, (pos i).head? with
+      | some li, some fj, some lj, some fi => li < fj || lj < fi
+      | _, _, _, _ => false
+  let creds := (asserts.map (·.2.1)).eraseDups
   let bad := creds.findSome? (fun c =>
-    let ks := (asserts.filter (·.1 == c)).map (·.2)
+    let mine := asserts.filter (·.2.1 == c)
+    let ks := mine.map (·.2.2)
     -- at the 32-bit maximum the counter stays (C08): the clause is about counters below it
-    if ks.any (· ≥ 4294967295) then none
-    else if ks.eraseDups.length != ks.length then some "fail:assertions-with-one-credential-report-the-same-counter"
+    -- ... and about credentials that have a counter: one without reports zero every time (C08)
+    let stored := (post.find? (fun p => hx p.credId == c)).bind (·.counter)
+    if ks.any (· ≥ 4294967295) || stored.isNone then none
+    else if ks.eraseDups.length != ks.length then
+      -- which pair shares a counter: one whose ceremonies overlapped (lookups before write-backs), or not even that
+      let serialDup := mine.any (fun a => mine.any (fun b => a.1 < b.1 && a.2.2 == b.2.2 && serial a.1 b.1))
+      some (if serialDup then "fail:assertions-that-do-not-overlap-report-the-same-counter"
+            else "fail:overlapping-assertions-with-one-credential-report-the-same-counter")
     else match (post.find? (fun p => hx p.credId == c)).bind (·.counter) with
       | some stored => if ks.foldl max 0 != stored then some "fail:stored-counter-is-not-the-largest-reported-counter" else none
       | none => none)
@@ -64,17 +79,27 @@ def step (au : Driver.Auth.St) (st : St) (op : List String) (impl : String) : Dr
       let v := match fieldOf impl "res", fieldOf impl "store" with
         | some r, some t =>
           (match (if t = "EMPTY" then some [] else (t.splitOn ";").mapM parseSnap) with
-           | some post => verdict (r.splitOn "|") st.regIds post
+           | some post => verdict (r.splitOn "|") st.regIds post (some sc)
            | none => "fail:unparsable-or-crashed")
         | _, _ => "fail:unparsable-or-crashed"
       ({ au with store := { out.1 with faults := [] } }, {}, model ++ "\t" ++ v)
+  | ["cc.spec", _label, sched] =>
+    -- call-by-call schedules of scenarios the interleaving model does not cover (a store call that fails in one
+    -- ceremony only; validators reporting no presence): the statement's clauses on what the implementation did
+    let v := match fieldOf impl "res", fieldOf impl "store", (sched.splitOn ",").mapM String.toNat? with
+      | some r, some t, some sc =>
+        (match (if t = "EMPTY" then some [] else (t.splitOn ";").mapM parseSnap) with
+         | some post => verdict (r.splitOn "|") st.regIds post (some sc)
+         | none => "fail:unparsable-or-crashed")
+      | _, _, _ => "fail:unparsable-or-crashed"
+    (au, {}, impl ++ "\t" ++ v)
   | ["cc.slow", _label, _sched] =>
     -- a slow backend behind the wrapper: polls are not call-by-call steps; the statement's clauses are evaluated on
     -- what the implementation did (search), the model is not consulted
     let v := match fieldOf impl "res", fieldOf impl "store" with
       | some r, some t =>
         (match (if t = "EMPTY" then some [] else (t.splitOn ";").mapM parseSnap) with
-         | some post => verdict (r.splitOn "|") st.regIds post
+         | some post => verdict (r.splitOn "|") st.regIds post none
          | none => "fail:unparsable-or-crashed")
       | _, _ => "fail:unparsable-or-crashed"
     (au, {}, impl ++ "\t" ++ v)
